@@ -221,6 +221,14 @@ func (mp *MultihashPrimary) GC(ctx context.Context, lowUsePercent int64) (int64,
 	return gc.gc(ctx, lowUsePercent, 0)
 }
 
+// currentFileNum returns the number of the primary file that is being written.
+// The flush lock is needed since the file number is changed by flush.
+func (cp *MultihashPrimary) currentFileNum() uint32 {
+	cp.flushLock.Lock()
+	defer cp.flushLock.Unlock()
+	return cp.fileNum
+}
+
 func (cp *MultihashPrimary) FileSize() uint32 {
 	return cp.maxFileSize
 }
